@@ -191,10 +191,10 @@ END\r\n
 				return err
 			}
 
-			// discard rest of payload
+			// discard rest of payload and the \r\n that ends the data block
 			count -= n
 
-			b.Discard(count)
+			b.Discard(count + 2)
 
 			s.ch.Send(event.New(
 				EventOptions,
